@@ -7,6 +7,8 @@ From Coq Require Import Reals ZArith List Arith Lra.
 From OSU.Lib Require Import InterpAuxDefs InterpAux.
 From OSU.Model Require Import Interp Periodic.
 From OSU.Proofs Require Import Interp Periodic.
+From OSU.Generated Require MathSrc.
+From OSU.Proofs Require Import MathGen.
 Import ListNotations.
 Open Scope R_scope.
 
@@ -24,6 +26,22 @@ Proof. exact fmod_unique. Qed.
 Theorem wrapped_difference_spec : forall d P disc, 0 < P ->
   disc - P <= wrapdiff d P disc < disc /\ exists k : Z, wrapdiff d P disc = d + IZR k * P.
 Proof. intros d P disc HP. split; [exact (wrapdiff_range d P disc HP)|exact (wrapdiff_congr d P disc)]. Qed.
+
+(* ---- the tie to the source: coq/Generated/MathSrc.v is regenerated from tools/math.py on every run *)
+Theorem source_wrapped_difference_is_the_model : forall d P c,
+  MathSrc.wrapped_difference d P c = wrapdiff d P c /\
+  MathSrc.wrapped_difference_default_discont P = P / 2 /\
+  MathSrc.wrapped_difference_default_period = 2 * PI.
+Proof.
+  intros d P c.
+  exact (conj (proj2 (src_wrapped_difference d P c))
+              (conj (proj1 (proj2 src_wrapped_difference_defaults) P) (proj1 src_wrapped_difference_defaults))).
+Qed.
+
+Theorem source_wrapped_difference_spec : forall d P disc, 0 < P ->
+  disc - P <= MathSrc.wrapped_difference d P disc < disc /\
+  exists k : Z, MathSrc.wrapped_difference d P disc = d + IZR k * P.
+Proof. exact src_wrapped_difference_range. Qed.
 
 (* targets any number of periods apart: same neighbours, same weights, same result
    (every grid, every NaN pattern, both modes, plain and angular data) *)
